@@ -228,22 +228,31 @@ end partial_
 
 /-! ## The stop sequence -/
 
-/-- **stop_sequence_runs_all** — whatever is in flight on the listener, as long as it completes
-within the router's shutdown grace period, `startstop.Stop` calls the `Stop` of every component,
-in order, and reports no error: the collector is drained and both transmissions are flushed also
-when shutdown is requested in the middle of a client upload. -/
-theorem stop_sequence_runs_all (grace : Nat) (finishIn : Option Nat)
-    (h : ∀ d, finishIn = some d → d ≤ grace) : stopSeq grace finishIn stopOrder = (stopOrder, false) := by
-  cases finishIn with
-  | none => simp [stopSeq, stopOrder, compStopOk]
-  | some d => have := h d rfl; simp [stopSeq, stopOrder, compStopOk, this]
+/-- **stop_sequence_runs_all** — for every configuration (the stop order of its object graph is
+`order`) and whatever is in flight on the listener, as long as it completes within the router's
+shutdown grace period, `startstop.Stop` calls the `Stop` of every component, in order, and reports
+no error: the collector is drained and both transmissions are flushed also when shutdown is
+requested in the middle of a client upload.  (That no `Stop` panics — e.g. the config watcher's with
+OpAMP enabled, where `Start` returns before subscribing — is observed on the real graph for every
+configuration, not proved.) -/
+theorem stop_sequence_runs_all (grace : Nat) (finishIn : Option Nat) (order : List Comp)
+    (h : ∀ d, finishIn = some d → d ≤ grace) : stopSeq grace finishIn order = (order, false) := by
+  have hok : ∀ c, compStopOk grace finishIn c = true := by
+    intro c
+    cases c <;> simp [compStopOk]
+    cases finishIn with
+    | none => rfl
+    | some d => simpa using h d rfl
+  induction order with
+  | nil => rfl
+  | cons c rest ih => simp [stopSeq, hok c, ih]
 
 /-- with a grace period that is already over (60 ns instead of 60 s) a request in flight aborts the
 sequence at the router: the collector and the transmissions are never stopped -/
 theorem stop_sequence_aborts_when_grace_too_short :
     stopSeq 60 (some 300000000) stopOrder = ([.app, .incomingRouter], true) := by decide
 
-example : (stopSeq 60000000000 (some 300000000) stopOrder).1.length = 6 := by decide
+example : (stopSeq 60000000000 (some 300000000) stopOrder).1.length = 14 := by decide
 
 /-! ## The shutdown flush and `Retry-After` -/
 
